@@ -7,12 +7,13 @@
 (***************************************************************************)
 EXTENDS Naturals, Integers, Sequences, FiniteSets, TLC, Json, FigProps
 CONSTANTS NSet, LenSet, PlaceSet, BoolSet, KindSet, ReuseSet, RestateGeometry,
+          SameSet,                \* "none" | "dupfirst": the LAST entry of the figure list is the same path as the first (one image shown twice)
           SublineFollowsTitle     \* deviation flag: TRUE = the subline is shown on the pages page_title selects (FALSE: first page only)
 VARIABLES cfg, d, phase, p, part, out
 vars == <<cfg, d, phase, p, part, out>>
-Cfg0 == [n |-> 1, wl |-> 1, hl |-> 1, ptitle |-> "all", pfoot |-> "last", psrc |-> "last", title |-> FALSE, subline |-> FALSE, foot |-> FALSE, src |-> FALSE, kinds |-> <<>>, reuse |-> FALSE]
+Cfg0 == [n |-> 1, wl |-> 1, hl |-> 1, ptitle |-> "all", pfoot |-> "last", psrc |-> "last", title |-> FALSE, subline |-> FALSE, foot |-> FALSE, src |-> FALSE, kinds |-> <<>>, reuse |-> FALSE, same |-> "none"]
 Init == cfg = Cfg0 /\ d = 1 /\ phase = "pick" /\ p = 1 /\ part = "break" /\ out = <<>>
-Pick == /\ phase = "pick" /\ d <= 12
+Pick == /\ phase = "pick" /\ d <= 13
         /\ CASE d = 1 -> \E v \in NSet : cfg' = [cfg EXCEPT !.n = v] /\ d' = 2
              [] d = 2 -> \E v \in LenSet : cfg' = [cfg EXCEPT !.wl = v] /\ d' = 3
              [] d = 3 -> \E v \in LenSet : cfg' = [cfg EXCEPT !.hl = v] /\ d' = 4
@@ -28,13 +29,16 @@ Pick == /\ phase = "pick" /\ d <= 12
              \* reuse: an earlier document of the same process embedded OTHER image bytes from the same paths (files
              \* rewritten in place, same time stamp); images are read when the document is encoded, not remembered
              [] d = 12 -> \E v \in ReuseSet : cfg' = [cfg EXCEPT !.reuse = v] /\ d' = 13
+             [] d = 13 -> \E v \in (IF cfg.n >= 2 THEN SameSet ELSE {"none"}) : cfg' = [cfg EXCEPT !.same = v] /\ d' = 14
         /\ UNCHANGED <<phase, p, part, out>>
-Start == phase = "pick" /\ d = 13 /\ phase' = "emit" /\ UNCHANGED <<cfg, d, p, part, out>>
+Start == phase = "pick" /\ d = 14 /\ phase' = "emit" /\ UNCHANGED <<cfg, d, p, part, out>>
 \* abstract sizes: figure i has pixel size (10 i, 10 i + 1); width list entry j is 100 j twips, height 200 j
-Ev(k, i) == [k |-> k, p |-> p, i |-> i, fmt |-> IF k = "pict" THEN cfg.kinds[i] ELSE "",
-             picw |-> IF k = "pict" THEN 10 * i ELSE 0, pich |-> IF k = "pict" THEN 10 * i + 1 ELSE 0,
+\* the file shown at position i (the first one again at the last position when same = "dupfirst")
+Eff(i) == IF cfg.same = "dupfirst" /\ i = cfg.n /\ cfg.n >= 2 THEN 1 ELSE i
+Ev(k, i) == [k |-> k, p |-> p, i |-> i, fmt |-> IF k = "pict" THEN cfg.kinds[Eff(i)] ELSE "",
+             picw |-> IF k = "pict" THEN 10 * Eff(i) ELSE 0, pich |-> IF k = "pict" THEN 10 * Eff(i) + 1 ELSE 0,
              wgoal |-> IF k = "pict" THEN 100 * Min(i, cfg.wl) ELSE 0, hgoal |-> IF k = "pict" THEN 200 * Min(i, cfg.hl) ELSE 0,
-             dlen |-> i, dsha |-> "s", hexok |-> TRUE, bytes |-> <<>>, geom |-> IF k = "break" /\ RestateGeometry THEN <<1>> ELSE <<>>]
+             dlen |-> IF k = "pict" THEN Eff(i) ELSE i, dsha |-> "s", hexok |-> TRUE, bytes |-> <<>>, geom |-> IF k = "break" /\ RestateGeometry THEN <<1>> ELSE <<>>]
 Advance(next) == part' = next
 EmitBreak == /\ phase = "emit" /\ part = "break"
              /\ out' = (IF p > 1 THEN Append(out, Ev("break", 0)) ELSE out) /\ Advance("title") /\ UNCHANGED <<cfg, d, phase, p>>
@@ -56,7 +60,7 @@ NextPage == /\ phase = "emit" /\ part = "next"
             /\ UNCHANGED <<cfg, d, out>>
 Next == Pick \/ Start \/ EmitBreak \/ EmitTitle \/ EmitSubline \/ EmitPict \/ EmitFoot \/ EmitSrc \/ NextPage
 Spec == Init /\ [][Next]_vars
-MC == cfg @@ [files |-> [i \in 1..cfg.n |-> [fmt |-> cfg.kinds[i], w |-> 10 * i, h |-> 10 * i + 1, len |-> i, sha |-> "s", bytes |-> <<>>]],
+MC == cfg @@ [files |-> [i \in 1..cfg.n |-> [fmt |-> cfg.kinds[Eff(i)], w |-> 10 * Eff(i), h |-> 10 * Eff(i) + 1, len |-> Eff(i), sha |-> "s", bytes |-> <<>>]],
               fw |-> [j \in 1..cfg.wl |-> 100 * j], fh |-> [j \in 1..cfg.hl |-> 200 * j], geom |-> <<1>>]
 All(Cl(_, _, _)) == phase = "done" => \A l \in 1..(Len(out) + 1) : Cl(MC, out, l)
 M_OnePerPage == All(C16_OnePerPage)
